@@ -3,6 +3,7 @@
 package c09
 
 import (
+	"sort"
 	"sync"
 
 	"cedarverif/internal/adwire"
@@ -25,22 +26,31 @@ func run(c *core.Ctx) {
 		}
 		return
 	}
+	// the model check and the three parts of the table generator are independent TLC runs
 	var wg sync.WaitGroup
+	var mu sync.Mutex
 	var rows []adwire.WireRow
 	okMC := false
-	wg.Add(2)
+	wg.Add(1)
 	go func() {
 		defer wg.Done()
-		okMC = kit.ModelCheck(c, "ClassAdWire.tla", "MC_C09.cfg", tlc.Options{Workers: 12}) != nil
+		okMC = kit.ModelCheck(c, "ClassAdWire.tla", "MC_C09.cfg", tlc.Options{Workers: 10}) != nil
 	}()
-	go func() {
-		defer wg.Done()
-		rows = adwire.ParseWireRows(c, kit.Generate(c, "Gen_ClassAdWire.tla", "Gen_C09.cfg", tlc.Options{}))
-	}()
+	for _, part := range []string{"nokey", "enc", "keyedClear"} {
+		wg.Add(1)
+		go func(part string) {
+			defer wg.Done()
+			r := adwire.ParseWireRows(c, kit.Generate(c, "Gen_ClassAdWire.tla", "Gen_C09_"+part+".cfg", tlc.Options{}))
+			mu.Lock()
+			rows = append(rows, r...)
+			mu.Unlock()
+		}(part)
+	}
 	wg.Wait()
 	if c.IsBroken() || !okMC {
 		return
 	}
+	sort.SliceStable(rows, func(i, j int) bool { return rows[i].Cfg.St < rows[j].Cfg.St })
 	table := 0
 	for _, r := range rows {
 		if len(r.Ad) == 1 {
